@@ -21,7 +21,8 @@ EXACTLY (DESIGN 2.5):
 Everything else of the sched alphabet is used: weights {unset, 1, 10, 10, 50} with ties, per-pool limits
 (cpu / memory / nodes) with existing nodes already charged to them, taints (NoSchedule / NoExecute /
 PreferNoSchedule), startup taints, pool requirements with and without minValues, per-pool catalogs, pools that
-are not Ready or being deleted, stale hash annotations, price ties, unavailable cheap offerings, a reduced
+are not Ready or being deleted, stale hash annotations, minValues floors on arch / gen / zone (single-valued per type: which types survive
+the truncation decides), catalogs larger than the cap in provider orders unrelated to the price order, price ties, unavailable cheap offerings, a reduced
 scheduling.MaxInstanceTypes, both minValues policies, 1/2/8 evaluation workers, CreateNodeClaims."""
 import copy
 
